@@ -19,6 +19,16 @@ func c20w(cat, form, ctx string) json.RawMessage {
 	return rawJSON(&C20Case{Cat: cat, Form: form, Ctx: ctx, Import: "plain"})
 }
 
+// specD31: a provider from a package called init.
+func specD31() *Spec {
+	s := &Spec{ImportAlias: map[int]string{1: "boot"}, Pkgs: []Pkg{{Name: "app"}, {Dir: "boot/init", Name: "init"}}}
+	cfg := Named(addFreshStruct(s, 1, "Config"))
+	nc := addItem(s, Item{Kind: "func", Pkg: 1, Name: "NewConfig", Out: cfg})
+	s.Injectors = []Injector{{Name: "InitConfig", Out: cfg, Args: []Ref{RItem(nc)}}}
+	refreshPlan(s)
+	return s
+}
+
 // specD30: an accepted program whose package also declares a type alias of
 // the marker type.
 func specD30() *Spec {
@@ -194,6 +204,7 @@ func WriteFindings(commits map[string]string) error {
 		fixed("D29", "C17", "D29", "wire gen ./... / wire diff ./... in a module with a directory that only holds _test.go files: \"no files to derive output directory from\", generate failed (exit 1 / 2) although every package with injectors generated", "C17 exit status differs from the command-line contract",
 			rawJSON(&CLICase{Pkgs: []cliPkg{{Name: "pa", Kind: "ok"}}, Steps: []CLIStep{{Op: "gen"}, {Op: "diff"}}})),
 		fixed("D30", "C19", "D30", "type ZzSetType = wire.ProviderSet in a package that gen accepts: wire check and wire show fail with \"type ... is not a provider or a provider set\"", "C19 check disagrees with gen and the reference verdict", rawJSON(specD30())),
+		fixed("D31", "C14", "D31", "a dependency declared as package init (imported by the user as boot \"…/boot/init\"): the generated file imported it under its own name, which does not compile", "C14 under adversarial names: C01 package does not compile with the generated file", rawJSON(specD31())),
 		known("D15", "C20", "injector body with extra statements: the invalid-injector diagnostic of `wire gen` carries no file:line:col position (its text is pinned by golden file InvalidInjector of the repository's suite, so a repair would change an expected output)", "C20 failure without a positioned diagnostic",
 			rawJSON(&C20Case{Cat: "injector", Form: "func Inject() S { y := 1; _ = y; wire.Build(NewS); return S{} }", Import: "plain"})),
 		known("D20", "C13", "wire.InterfaceValue(new(I), f()) is accepted and the call is copied into the generated package-level variable (the repository's golden test InterfaceValue uses strings.NewReader(...) and pins acceptance)", "C13",
